@@ -74,6 +74,17 @@ def build_levy(atoms, sigma_u, sizes_script):
     return Direct(atoms, sigma=sigma_u * U)
 
 
+DTS_SEEN = []
+
+
+def counting(counts):
+    """scripted number of jumps of an interval; the length of the interval the simulator asks for is recorded"""
+    def nb_jump_dt(dt):
+        DTS_SEEN.append(float(dt))
+        return counts.popleft()
+    return nb_jump_dt
+
+
 def record(kind, mode, dates, jumps, eps, sigma_u, path, ncomp):
     """path: StochasticJumpPath; jumps: list of [time_tick, [size per component]];
     sigma_u: one coefficient for all rows, or one per row (rows: fine dimensions, then coarse dimensions)"""
@@ -95,6 +106,9 @@ def record(kind, mode, dates, jumps, eps, sigma_u, path, ncomp):
             dsq.append([exact_int(x) for x in d])
     ev["dsq"] = dsq
     ev["d0"] = [exact_int(row[0]) for row in dp]
+    # the interval lengths the simulator asked jump counts for (ticks), in the order asked
+    ev["dts"] = [exact_int(x * TICKS, tol=1e-9) for x in DTS_SEEN]
+    del DTS_SEEN[:]
     ev["bad"] = count_bad(ev)
     return ev
 
@@ -155,7 +169,7 @@ def run_case(tid, kind, mode, dates, per_interval, eps, sigma_u, rng):
             fine.sampling.sample = lambda size=1: [fincs.popleft() for _ in range(int(size))]
             # the path simulation objects captured the old sampler: re-initialise on the same objects
             proc.initialisation(product, max_step_epsilon=max_eps)
-            fine.nb_jump_dt = lambda dt: counts.popleft()
+            fine.nb_jump_dt = counting(counts)
             fine.jump_times_from_nb_of_jumps = lambda dt, n: np.array(offsets.popleft()[:n], dtype=float)
 
             class U25:
@@ -181,7 +195,7 @@ def run_case(tid, kind, mode, dates, per_interval, eps, sigma_u, rng):
                            exact_int(float(proc.equivalent_diffusion_coefficient_coarse) ** 2 / (U * U), tol=1e-9)]
             ev.append(record(kind, mode, dates, jumps, eps, sigma_u, path, 2))
         else:
-            proc.nb_jump_dt = lambda dt: counts.popleft()
+            proc.nb_jump_dt = counting(counts)
             proc.jump_times_from_nb_of_jumps = lambda dt, n: np.array(offsets.popleft()[:n], dtype=float)
             proc.initialisation(product, max_step_epsilon=max_eps)
             normal.count = 0
@@ -229,7 +243,7 @@ def run_case_copula(tid, kind, mode, dates, per_interval, eps, sigmas, rng):
         if not coupled:
             proc = MarkovChainLevyCopula(model, grid, SamplingMethod.BINARYSEARCHTREEADAPTED)
             proc.sampling.sample = lambda size=1: [incs.popleft() for _ in range(int(size))]
-            proc.nb_jump_dt = lambda dt: counts.popleft()
+            proc.nb_jump_dt = counting(counts)
             proc.jump_times_from_nb_of_jumps = lambda dt, n: np.array(offsets.popleft()[:n], dtype=float)
             proc.initialisation(product, max_step_epsilon=max_eps)
             normal.count = 0
@@ -247,7 +261,7 @@ def run_case_copula(tid, kind, mode, dates, per_interval, eps, sigmas, rng):
             proc.next_level(mc_paths=1, path_managers=pms, product=product, max_step_epsilon=max_eps)
             fine = proc.fine_process
             fine.sampling.sample = lambda size=1: [incs.popleft() for _ in range(int(size))]
-            fine.nb_jump_dt = lambda dt: counts.popleft()
+            fine.nb_jump_dt = counting(counts)
             fine.jump_times_from_nb_of_jumps = lambda dt, n: np.array(offsets.popleft()[:n], dtype=float)
 
             class U25:
